@@ -697,6 +697,14 @@ class FnTypes:
         if isinstance(e, ast.Name) and e.id not in env:
             pass
         r = self.model.resolve_expr_static(self.fn.module, e)
+        if r is None and isinstance(e, ast.Name) and not self.local_class_tuple(e.id):
+            # a global of another module of the package that came along with an inlined helper of that module
+            for m2 in self.model.modules.values():
+                if m2 is not self.fn.module:
+                    r = self.model.resolve_expr_static(m2, e)
+                    if r is not None and r[0] in ("class", "builtin", "ext"):
+                        break
+                    r = None
         if r is None:
             if isinstance(e, ast.Name):
                 return self.local_class_tuple(e.id) or self._const_class_tuple(e)
